@@ -181,7 +181,7 @@ def _worker(args):
         var = "($v: Boolean!)" if uses_v(sel) else ""
         q = "query%s { %s }" % (var, render(sel))
         for fr, text in (("FObj", "fragment FObj on Obj { a ks: s }"), ("FI", "fragment FI on I { a }"),
-                         ("FIo", "fragment FIo on I { o { a } }"), ("FOo", "fragment FOo on Obj { o { ks: s e } }")):
+                         ("FIo", "fragment FIo on I { o { a } }"), ("FOo", "fragment FOo on Obj { o { ks: s e } }"), ("FO2o", "fragment FO2o on Obj2 { o { e ka: a } }")):
             if uses_frag(sel, fr):
                 q += "\n" + text
         variables = {"v": w["v"]} if var else None
@@ -223,15 +223,18 @@ def _shards(shards):
     return merged, n, cases
 
 
-def generate(chk, steps, simulate=None):
-    cfg = tlc.cfg(constants={"MaxSteps": steps}, invariants=["Emit", "Shape", "ErrorsAtNulls"])
+NTEMPLATES = 4
+
+
+def generate(chk, steps, simulate=None, template=0):
+    cfg = tlc.cfg(constants={"MaxSteps": steps, "Template": template}, invariants=["Emit", "Shape", "ErrorsAtNulls"])
     kw = {}
     if simulate:
         kw = {"simulate": simulate, "depth": 3 * steps + 6, "seed": chk.seed, "cache": False}
-    r = chk.tlc("GqlExec", cfg, tags=["EXE"], coverage=not simulate, label="GqlExec steps<=%d%s" % (steps, " -simulate" if simulate else ""), **kw)
+    r = chk.tlc("GqlExec", cfg, tags=["EXE"], coverage=not simulate, label="GqlExec %ssteps<=%d%s" % ("template %d + " % template if template else "", steps, " -simulate" if simulate else ""), **kw)
     if r.rc != 0:
         raise tlc.TLCError("GqlExec invariant violated: %s\n%s" % (r.violated, r.tail))
-    if not simulate:
+    if not simulate and not template:
         tlc.require_coverage(r, ["AddLeaf", "OpenField", "OpenInline", "AddSpread", "Close", "Finish"])
     return r.tagged("EXE")
 
@@ -252,6 +255,11 @@ def run(chk):
         sim = generate(chk, 7, simulate=60000)
         chk.count("behaviours steps<=7 (simulated)", len(sim))
         behs += sim
+    tb = []
+    for t in range(1, NTEMPLATES + 1):
+        tb += generate(chk, 1 if chk.quick else 2, template=t)
+    chk.count("behaviours from templates (+<=%d steps, exhaustive)" % (1 if chk.quick else 2), len(tb))
+    behs += tb
     rng.shuffle(behs)
     parts = par.chunks(behs, par.NPROC * 2)
     cases = []
